@@ -35,6 +35,40 @@ def cmarker(m) -> str:
     raise ValueError(k)
 
 
+ALL_ROWS = []   # every (is_and, m1, m2, result) recorded during this run, for check_vmerge_rows
+
+
+def check_vmerge_rows(ctx: Ctx, limit_envs=24):
+    """the hypothesis `vmerge_sound` of the C02 theorems, checked on every row that the implementation produced
+    during the S-mark stream: the merged marker evaluates as the conjunction / disjunction of the two atoms"""
+    import props_marker as pm
+    rng = random.Random(ctx.seed + 4242)
+    seen = set()
+    n = 0
+    for kind, m1, m2, r in ALL_ROWS:
+        if r is None:
+            continue
+        key = (kind, str(m1), str(m2), bool(getattr(m1, "reversed", False)), bool(getattr(m2, "reversed", False)))
+        if key in seen:
+            continue
+        seen.add(key)
+        t1, t2 = str(m1), str(m2)
+        n += 1
+        for env in mg.env_grid([t1, t2], rng, limit=limit_envs):
+            try:
+                exp = (m1.evaluate(env) and m2.evaluate(env)) if kind else (m1.evaluate(env) or m2.evaluate(env))
+                got = r.evaluate(env)
+            except Exception as e:  # noqa: BLE001
+                ctx.finding(f"vmerge-raise|{t1}|{t2}", f"evaluate raised {type(e).__name__} on a merged version atom", {"a": t1, "b": t2, "env": pm._envs(env)}, None, repr(e))
+                break
+            if exp != got:
+                ctx.finding(f"{pm.env_class([t1, t2], env)}vmerge|{'and' if kind else 'or'}|{t1}|{t2}",
+                            "_merge_single_markers result is not the conjunction/disjunction of the two version atoms (hypothesis vmerge_sound of C02 fails on the code)",
+                            {"a": t1, "b": t2, "is_and": kind, "env": pm._envs(env)}, exp, {"result": str(r), "value": got})
+                break
+    ctx.count("S-vmerge-rows", n)
+
+
 class Recorder:
     """records _merge_single_markers(marker1, marker2, cls) on version-like atoms"""
 
@@ -52,6 +86,7 @@ class Recorder:
             r = rec.orig(m1, m2, cls)
             if m1.name in VERSION_LIKE or m2.name in VERSION_LIKE:
                 rec.calls.append((cls is MultiMarker, m1, m2, r))
+                ALL_ROWS.append((cls is MultiMarker, m1, m2, r))
             return r
         self.S._merge_single_markers = wrapper
         return self
@@ -232,6 +267,7 @@ def stream_smark(ctx: Ctx, n_pairs: int, texts=None, with_parse=True, with_only=
                   f"{len(pending)} of {len(cases)} cases differ under every set-order selector; first: {cases[i][2]} :: {cases[i][1](0)[:900]}")
     if cases:
         ctx.sample({"stream": "S-mark", "case": cases[len(cases) // 2][2]})
+    check_vmerge_rows(ctx)
 
 
 def eval_case(m, env):
